@@ -107,12 +107,24 @@ Definition algo0 := {| a_spec := false; a_np := 0; a_nf := 0; a_fed := []; e_pen
 Record gstate := { studies : nat -> study; nstudies : nat; registry : option nat; alg : algo; locks : lockid -> option nat }.
 Definition g0 (mx : option nat) := {| studies := fun _ => study0 mx; nstudies := 0; registry := None; alg := algo0; locks := fun _ => None |}.
 
+Record ghost := { g_reg : bool;            (* created a study that is not yet registered *)
+                  g_ip : Z;                (* appended trials whose PENDING counter increment is outstanding *)
+                  g_lat : option nat;      (* appended trial not yet recorded as latest of its group *)
+                  g_own : option nat;      (* the trial this thread has completed (test-and-set) most recently *)
+                  g_cc : Z; g_dp : Z;      (* completed trials whose COMPLETED += 1 / PENDING -= 1 is outstanding *)
+                  g_infd : Z;              (* trials made infeasible whose counter increment is outstanding *)
+                  g_fb : bool;             (* the completed trial has still to be reported to the algorithm *)
+                  g_best : bool }.         (* the completed trial has still to be compared with the best trial *)
+Definition ghost0 := {| g_reg := false; g_ip := 0%Z; g_lat := None; g_own := None; g_cc := 0%Z; g_dp := 0%Z; g_infd := 0%Z; g_fb := false; g_best := false |}.
+
 Record tstate := { pc : option (nat * nat);               (* None: the worker has finished *)
                    script : list uop;
                    held : list (lockref * lockid);
                    r_study : nat; r_group : nat; r_gnone : bool;
                    r_trial : option nat; r_cur : option nat; r_id : nat; r_dna : dna; r_ret : bool;
-                   r_reward : option Z; r_arg : Z; r_best : option nat }.
+                   r_reward : option Z; r_arg : Z; r_best : option nat;
+                   (* ghost: what this thread has changed in the study but not yet accounted for (never read by the code) *)
+                   gh : ghost }.
 
 Record cfg := { c_max : option nat; c_evo : bool; c_needs_fb : bool; c_pop : nat; c_policy : bool; c_stop : list nat }.
 
@@ -208,37 +220,56 @@ Definition al_misc (lockgen np nf setups : nat) (a : algo) : algo :=
 
 Definition th_pc (p : option (nat * nat)) (th : tstate) : tstate :=
   {| pc := p; script := script th; held := held th; r_study := r_study th; r_group := r_group th; r_gnone := r_gnone th; r_trial := r_trial th;
-     r_cur := r_cur th; r_id := r_id th; r_dna := r_dna th; r_ret := r_ret th; r_reward := r_reward th; r_arg := r_arg th; r_best := r_best th |}.
+     r_cur := r_cur th; r_id := r_id th; r_dna := r_dna th; r_ret := r_ret th; r_reward := r_reward th; r_arg := r_arg th; r_best := r_best th; gh := gh th |}.
 Definition th_held (h : list (lockref * lockid)) (th : tstate) : tstate :=
   {| pc := pc th; script := script th; held := h; r_study := r_study th; r_group := r_group th; r_gnone := r_gnone th; r_trial := r_trial th;
-     r_cur := r_cur th; r_id := r_id th; r_dna := r_dna th; r_ret := r_ret th; r_reward := r_reward th; r_arg := r_arg th; r_best := r_best th |}.
+     r_cur := r_cur th; r_id := r_id th; r_dna := r_dna th; r_ret := r_ret th; r_reward := r_reward th; r_arg := r_arg th; r_best := r_best th; gh := gh th |}.
 Definition th_script (s : list uop) (arg : Z) (th : tstate) : tstate :=
   {| pc := pc th; script := s; held := held th; r_study := r_study th; r_group := r_group th; r_gnone := r_gnone th; r_trial := r_trial th;
-     r_cur := r_cur th; r_id := r_id th; r_dna := r_dna th; r_ret := r_ret th; r_reward := r_reward th; r_arg := arg; r_best := r_best th |}.
+     r_cur := r_cur th; r_id := r_id th; r_dna := r_dna th; r_ret := r_ret th; r_reward := r_reward th; r_arg := arg; r_best := r_best th; gh := gh th |}.
 Definition th_study (s : nat) (th : tstate) : tstate :=
   {| pc := pc th; script := script th; held := held th; r_study := s; r_group := r_group th; r_gnone := r_gnone th; r_trial := r_trial th;
-     r_cur := r_cur th; r_id := r_id th; r_dna := r_dna th; r_ret := r_ret th; r_reward := r_reward th; r_arg := r_arg th; r_best := r_best th |}.
+     r_cur := r_cur th; r_id := r_id th; r_dna := r_dna th; r_ret := r_ret th; r_reward := r_reward th; r_arg := r_arg th; r_best := r_best th; gh := gh th |}.
 Definition th_trial (o : option nat) (th : tstate) : tstate :=
   {| pc := pc th; script := script th; held := held th; r_study := r_study th; r_group := r_group th; r_gnone := r_gnone th; r_trial := o;
-     r_cur := r_cur th; r_id := r_id th; r_dna := r_dna th; r_ret := r_ret th; r_reward := r_reward th; r_arg := r_arg th; r_best := r_best th |}.
+     r_cur := r_cur th; r_id := r_id th; r_dna := r_dna th; r_ret := r_ret th; r_reward := r_reward th; r_arg := r_arg th; r_best := r_best th; gh := gh th |}.
 Definition th_cur (o : option nat) (th : tstate) : tstate :=
   {| pc := pc th; script := script th; held := held th; r_study := r_study th; r_group := r_group th; r_gnone := r_gnone th; r_trial := r_trial th;
-     r_cur := o; r_id := r_id th; r_dna := r_dna th; r_ret := r_ret th; r_reward := r_reward th; r_arg := r_arg th; r_best := r_best th |}.
+     r_cur := o; r_id := r_id th; r_dna := r_dna th; r_ret := r_ret th; r_reward := r_reward th; r_arg := r_arg th; r_best := r_best th; gh := gh th |}.
 Definition th_id (n : nat) (th : tstate) : tstate :=
   {| pc := pc th; script := script th; held := held th; r_study := r_study th; r_group := r_group th; r_gnone := r_gnone th; r_trial := r_trial th;
-     r_cur := r_cur th; r_id := n; r_dna := r_dna th; r_ret := r_ret th; r_reward := r_reward th; r_arg := r_arg th; r_best := r_best th |}.
+     r_cur := r_cur th; r_id := n; r_dna := r_dna th; r_ret := r_ret th; r_reward := r_reward th; r_arg := r_arg th; r_best := r_best th; gh := gh th |}.
 Definition th_dna (d : dna) (th : tstate) : tstate :=
   {| pc := pc th; script := script th; held := held th; r_study := r_study th; r_group := r_group th; r_gnone := r_gnone th; r_trial := r_trial th;
-     r_cur := r_cur th; r_id := r_id th; r_dna := d; r_ret := r_ret th; r_reward := r_reward th; r_arg := r_arg th; r_best := r_best th |}.
+     r_cur := r_cur th; r_id := r_id th; r_dna := d; r_ret := r_ret th; r_reward := r_reward th; r_arg := r_arg th; r_best := r_best th; gh := gh th |}.
 Definition th_ret (b : bool) (th : tstate) : tstate :=
   {| pc := pc th; script := script th; held := held th; r_study := r_study th; r_group := r_group th; r_gnone := r_gnone th; r_trial := r_trial th;
-     r_cur := r_cur th; r_id := r_id th; r_dna := r_dna th; r_ret := b; r_reward := r_reward th; r_arg := r_arg th; r_best := r_best th |}.
+     r_cur := r_cur th; r_id := r_id th; r_dna := r_dna th; r_ret := b; r_reward := r_reward th; r_arg := r_arg th; r_best := r_best th; gh := gh th |}.
 Definition th_reward (r : option Z) (th : tstate) : tstate :=
   {| pc := pc th; script := script th; held := held th; r_study := r_study th; r_group := r_group th; r_gnone := r_gnone th; r_trial := r_trial th;
-     r_cur := r_cur th; r_id := r_id th; r_dna := r_dna th; r_ret := r_ret th; r_reward := r; r_arg := r_arg th; r_best := r_best th |}.
+     r_cur := r_cur th; r_id := r_id th; r_dna := r_dna th; r_ret := r_ret th; r_reward := r; r_arg := r_arg th; r_best := r_best th; gh := gh th |}.
 Definition th_best (o : option nat) (th : tstate) : tstate :=
   {| pc := pc th; script := script th; held := held th; r_study := r_study th; r_group := r_group th; r_gnone := r_gnone th; r_trial := r_trial th;
-     r_cur := r_cur th; r_id := r_id th; r_dna := r_dna th; r_ret := r_ret th; r_reward := r_reward th; r_arg := r_arg th; r_best := o |}.
+     r_cur := r_cur th; r_id := r_id th; r_dna := r_dna th; r_ret := r_ret th; r_reward := r_reward th; r_arg := r_arg th; r_best := o; gh := gh th |}.
+
+Definition th_gh (x : ghost) (th : tstate) : tstate :=
+  {| pc := pc th; script := script th; held := held th; r_study := r_study th; r_group := r_group th; r_gnone := r_gnone th; r_trial := r_trial th;
+     r_cur := r_cur th; r_id := r_id th; r_dna := r_dna th; r_ret := r_ret th; r_reward := r_reward th; r_arg := r_arg th; r_best := r_best th; gh := x |}.
+
+Definition gh_mk (x : ghost) (reg : bool) (ip : Z) (lat own : option nat) (cc dp infd : Z) (fb best : bool) : ghost :=
+  {| g_reg := reg; g_ip := ip; g_lat := lat; g_own := own; g_cc := cc; g_dp := dp; g_infd := infd; g_fb := fb; g_best := best |}.
+Definition gh_reg (b : bool) (x : ghost) := gh_mk x b (g_ip x) (g_lat x) (g_own x) (g_cc x) (g_dp x) (g_infd x) (g_fb x) (g_best x).
+Definition gh_append (i : nat) (x : ghost) := gh_mk x (g_reg x) (g_ip x + 1)%Z (Some i) (g_own x) (g_cc x) (g_dp x) (g_infd x) (g_fb x) (g_best x).
+Definition gh_incpend (x : ghost) := gh_mk x (g_reg x) (g_ip x - 1)%Z (g_lat x) (g_own x) (g_cc x) (g_dp x) (g_infd x) (g_fb x) (g_best x).
+Definition gh_setlat (x : ghost) := gh_mk x (g_reg x) (g_ip x) None (g_own x) (g_cc x) (g_dp x) (g_infd x) (g_fb x) (g_best x).
+Definition gh_flip (i : nat) (x : ghost) := gh_mk x (g_reg x) (g_ip x) (g_lat x) (Some i) (g_cc x + 1)%Z (g_dp x + 1)%Z (g_infd x) true true.
+Definition gh_inf (x : ghost) := gh_mk x (g_reg x) (g_ip x) (g_lat x) (g_own x) (g_cc x) (g_dp x) (g_infd x + 1)%Z false false.
+Definition gh_fed (x : ghost) := gh_mk x (g_reg x) (g_ip x) (g_lat x) (g_own x) (g_cc x) (g_dp x) (g_infd x) false (g_best x).
+Definition gh_cc (x : ghost) := gh_mk x (g_reg x) (g_ip x) (g_lat x) (g_own x) (g_cc x - 1)%Z (g_dp x) (g_infd x) (g_fb x) (g_best x).
+Definition gh_dp (x : ghost) := gh_mk x (g_reg x) (g_ip x) (g_lat x) (g_own x) (g_cc x) (g_dp x - 1)%Z (g_infd x) (g_fb x) (g_best x).
+Definition gh_infc (x : ghost) := gh_mk x (g_reg x) (g_ip x) (g_lat x) (g_own x) (g_cc x) (g_dp x) (g_infd x - 1)%Z (g_fb x) (g_best x).
+Definition gh_bestdone (x : ghost) := gh_mk x (g_reg x) (g_ip x) (g_lat x) (g_own x) (g_cc x) (g_dp x) (g_infd x) (g_fb x) false.
+Definition ghu (f : ghost -> ghost) (th : tstate) : tstate := th_gh (f (gh th)) th.
 
 Definition lastn {A} (n : nat) (l : list A) : list A := skipn (length l - n) l.
 Definition last_opt (l : list Z) : option Z := match rev l with [] => None | x :: _ => Some x end.
@@ -288,77 +319,148 @@ Definition evalc (c : cfg) (cn : cond) (g : gstate) (th : tstate) : bool :=
   | CHasPopUpdate => true
   end.
 
+(* ---- primitive mutations of the shared state: every effect is a list of these plus a change of the thread's own registers ---- *)
+Inductive tmut := TFlip (owner : nat) | TInf | TMeas (z : Z) | TFinal (o : option Z) | TFed.
+Inductive gmut :=
+| MNewStudy | MRegister (s : nat)
+| MAppend (x : trial) | MPend (d : Z) | MComp (d : Z) | MInfc (d : Z) | MLatest (gk i : nat) | MTrial (i : nat) (k : tmut)
+| MBest (o : option nat) | MActive (b : bool) | MFull
+| MAlg (a : algo).
+
+Definition apply_tmut (k : tmut) (x : trial) : trial :=
+  match k with
+  | TFlip o => tr_done true (Some o) x
+  | TInf => tr_inf true x
+  | TMeas z => tr_meas (t_meas x ++ [z]) x
+  | TFinal o => tr_final o x
+  | TFed => tr_fed x
+  end.
+
+(* s: the study the thread works on *)
+Definition apply_mut (s : nat) (g : gstate) (m : gmut) : gstate :=
+  match m with
+  | MNewStudy => set_studies g (studies g) (S (nstudies g))
+  | MRegister s' => set_registry g (Some s')
+  | MAppend x => upd_study s (fun st => set_trials st (s_trials st ++ [x])) g
+  | MPend d => upd_study s (fun st => st_pend (s_pend st + d)%Z st) g
+  | MComp d => upd_study s (fun st => st_comp (s_comp st + d)%Z st) g
+  | MInfc d => upd_study s (fun st => st_inf (s_inf st + d)%Z st) g
+  | MLatest gk i => upd_study s (fun st => st_latest (aset (s_latest st) gk i) st) g
+  | MTrial i k => upd_study s (upd_trial i (apply_tmut k)) g
+  | MBest o => upd_study s (st_best o) g
+  | MActive b => upd_study s (st_active b) g
+  | MFull => upd_study s (st_full true) g
+  | MAlg a => set_alg g a
+  end.
+
 (* a CFull that comes out true is remembered (ghost) *)
 Definition note_full (cn : cond) (b : bool) (g : gstate) (th : tstate) : gstate :=
-  match cn with CFull => if b then upd_study (r_study th) (st_full true) g else g | _ => g end.
+  match cn with CFull => if b then apply_mut (r_study th) g MFull else g | _ => g end.
 
-Definition sem (c : cfg) (me : nat) (e : effect) (g : gstate) (th : tstate) : gstate * tstate :=
+(* ghost: a comparison with the best trial that comes out "not better" settles that debt *)
+Definition note_branch (cn : cond) (b : bool) (th : tstate) : tstate :=
+  match cn with CBestBetter => if b then th else ghu gh_bestdone th | _ => th end.
+
+(* what an effect does to the shared state ... *)
+Definition muts (c : cfg) (me : nat) (e : effect) (g : gstate) (th : tstate) : list gmut :=
   let s := r_study th in
   let st := study_of g s in
   let a := alg g in
   match e with
-  | ENop | ERead | EMetaUpdate | ETouch | EEvoConf | EGenId | EFeedbackSeq | ESetFitness | EUserFeedback => (g, th)
-  | ENewStudy => (set_studies g (studies g) (S (nstudies g)), th_study (nstudies g) th)
-  | ERegister => (set_registry g (Some s), th)
-  | ELookup => (g, match registry g with Some s' => th_study s' th | None => th end)
-  | EGetLatest => (g, th_trial (alookup (s_latest st) (r_group th)) th)
-  | EReadId => (g, th_id (S (length (s_trials st))) th)
-  | EAppend =>
-      let x := {| t_id := r_id th; t_group := r_group th; t_dna := r_dna th; t_done := false; t_inf := false; t_meas := []; t_final := None;
-                  t_fed := 0; t_owner := None |} in
-      (upd_study s (fun st => set_trials st (s_trials st ++ [x])) g, th_trial (Some (length (s_trials st))) th)
-  | EIncPend => (upd_study s (fun st => st_pend (s_pend st + 1)%Z st) g, th)
-  | EDecPend => (upd_study s (fun st => st_pend (s_pend st - 1)%Z st) g, th)
-  | EIncComp => (upd_study s (fun st => st_comp (s_comp st + 1)%Z st) g, th)
-  | EIncInf => (upd_study s (fun st => st_inf (s_inf st + 1)%Z st) g, th)
-  | ESetLatest => (match r_trial th with Some i => upd_study s (fun st => st_latest (aset (s_latest st) (r_group th) i) st) g | None => g end, th)
-  | ESetCur => (g, th_cur (r_trial th) th)
-  | EAddMeas => (upd_cur s (r_cur th) (fun x => tr_meas (t_meas x ++ [r_arg th]) x) g, th)
-  | ESetCompleted => (upd_cur s (r_cur th) (tr_done true (Some me)) g, th)
-  | ESetFinalLast => (upd_cur s (r_cur th) (fun x => tr_final (last_opt (t_meas x)) x) g, th)
-  | ESetFinalZero => (upd_cur s (r_cur th) (tr_final (Some 0%Z)) g, th)
-  | ESetInf => (upd_cur s (r_cur th) (tr_inf true) g, th)
-  | ELoadDna => (g, match otrial st (r_cur th) with Some x => th_dna (t_dna x) th | None => th end)
-  | EComputeReward =>
-      (g, th_reward (match otrial st (r_cur th) with Some x => if t_done x && negb (t_inf x) then t_final x else None | None => None end) th)
-  | EReadBest => (g, th_best (s_best st) th)
-  | ESetBest => (upd_study s (st_best (r_cur th)) g, th)
-  | ESetActive b => (upd_study s (st_active b) g, th)
-  | ESetRet b => (g, th_ret b th)
-  | EPolicy => (g, th_ret (match otrial st (r_cur th) with Some x => existsb (Nat.eqb (t_id x)) (c_stop c) | None => false end) th)
-  | ESetSpec => (set_alg g (al_base true (a_np a) (a_nf a) (a_fed a) a), th)
-  | EResetNP => (set_alg g (al_base (a_spec a) 0 (a_nf a) (a_fed a) a), th)
-  | EResetNF => (set_alg g (al_base (a_spec a) (a_np a) 0 (a_fed a) a), th)
-  | EIncNP => (set_alg g (al_base (a_spec a) (S (a_np a)) (a_nf a) (a_fed a) a), th)
+  | ENewStudy => [MNewStudy]
+  | ERegister => [MRegister s]
+  | EAppend => [MAppend {| t_id := r_id th; t_group := r_group th; t_dna := r_dna th; t_done := false; t_inf := false; t_meas := []; t_final := None;
+                            t_fed := 0; t_owner := None |}]
+  | EIncPend => [MPend 1%Z] | EDecPend => [MPend (-1)%Z] | EIncComp => [MComp 1%Z] | EIncInf => [MInfc 1%Z]
+  | ESetLatest => match r_trial th with Some i => [MLatest (r_group th) i] | None => [] end
+  | EAddMeas => match r_cur th with Some i => [MTrial i (TMeas (r_arg th))] | None => [] end
+  | ESetCompleted =>
+      (* status = 'COMPLETED'; ghost: if this changes the status, this thread becomes the trial's owner *)
+      match r_cur th, otrial st (r_cur th) with
+      | Some i, Some x => if t_done x then [] else [MTrial i (TFlip me)]
+      | _, _ => []
+      end
+  | ESetFinalLast => match r_cur th, otrial st (r_cur th) with Some i, Some x => [MTrial i (TFinal (last_opt (t_meas x)))] | _, _ => [] end
+  | ESetFinalZero => match r_cur th with Some i => [MTrial i (TFinal (Some 0%Z))] | None => [] end
+  | ESetInf => match r_cur th, otrial st (r_cur th) with Some i, Some x => if t_inf x then [] else [MTrial i TInf] | _, _ => [] end
+  | ESetBest => [MBest (r_cur th)]
+  | ESetActive b => [MActive b]
+  | ESetSpec => [MAlg (al_base true (a_np a) (a_nf a) (a_fed a) a)]
+  | EResetNP => [MAlg (al_base (a_spec a) 0 (a_nf a) (a_fed a) a)]
+  | EResetNF => [MAlg (al_base (a_spec a) (a_np a) 0 (a_fed a) a)]
+  | EIncNP => [MAlg (al_base (a_spec a) (S (a_np a)) (a_nf a) (a_fed a) a)]
   | EIncNF =>
       (* the statement `self._num_feedbacks += 1`; ghost: the trial being reported is recorded *)
-      let fed := match otrial st (r_cur th) with Some x => [(s, t_id x)] | None => [] end in
-      (upd_cur s (r_cur th) tr_fed (set_alg g (al_base (a_spec a) (a_np a) (S (a_nf a)) (a_fed a ++ fed) a)), th)
-  | ERandPropose => (g, th_dna dna0 th)
-  | EInitGenSetup => (set_alg g (al_misc (e_lockgen a) 0 0 (e_setups a) a), th)
-  | EResetGen => (set_alg g (al_evo (e_pending a) (e_init a) (e_pop a) 0 a), th)
-  | ESetPopInit b => (set_alg g (al_evo (e_pending a) b (e_pop a) (e_gen a) a), th)
-  | EResetPop => (set_alg g (al_evo (e_pending a) (e_init a) [] (e_gen a) a), th)
-  | EResetPending => (set_alg g (al_evo [] (e_init a) (e_pop a) (e_gen a) a), th)
-  | ENewAlgoLock => (set_alg g (al_misc (S (e_lockgen a)) (ig_np a) (ig_nf a) (S (e_setups a)) a), th)
-  | EInitGenPropose => (set_alg g (al_misc (e_lockgen a) (S (ig_np a)) (ig_nf a) (e_setups a) a), th_dna dna0 th)
-  | ESetPid => (g, th_dna {| d_pid := S (a_np a); d_init := d_init (r_dna th) |} th)
-  | ESetInitial b => (g, th_dna {| d_pid := d_pid (r_dna th); d_init := b |} th)
-  | EPendAppend => (set_alg g (al_evo (e_pending a ++ [r_dna th]) (e_init a) (e_pop a) (e_gen a) a), th)
+      match r_cur th, otrial st (r_cur th) with
+      | Some i, Some x => [MTrial i TFed; MAlg (al_base (a_spec a) (a_np a) (S (a_nf a)) (a_fed a ++ [(s, t_id x)]) a)]
+      | _, _ => [MAlg (al_base (a_spec a) (a_np a) (S (a_nf a)) (a_fed a) a)]
+      end
+  | EInitGenSetup => [MAlg (al_misc (e_lockgen a) 0 0 (e_setups a) a)]
+  | EResetGen => [MAlg (al_evo (e_pending a) (e_init a) (e_pop a) 0 a)]
+  | ESetPopInit b => [MAlg (al_evo (e_pending a) b (e_pop a) (e_gen a) a)]
+  | EResetPop => [MAlg (al_evo (e_pending a) (e_init a) [] (e_gen a) a)]
+  | EResetPending => [MAlg (al_evo [] (e_init a) (e_pop a) (e_gen a) a)]
+  | ENewAlgoLock => [MAlg (al_misc (S (e_lockgen a)) (ig_np a) (ig_nf a) (S (e_setups a)) a)]
+  | EInitGenPropose => [MAlg (al_misc (e_lockgen a) (S (ig_np a)) (ig_nf a) (e_setups a) a)]
+  | EPendAppend => [MAlg (al_evo (e_pending a ++ [r_dna th]) (e_init a) (e_pop a) (e_gen a) a)]
   | EExtendEvolve =>
       let kids := match e_pop a with [] => [] | _ => [ {| d_pid := S (a_np a); d_init := false |} ] end in
-      (set_alg g (al_evo (e_pending a ++ kids) (e_init a) (e_pop a) (S (e_gen a)) a), th)
-  | ESetGen1 => (set_alg g (al_evo (e_pending a) (e_init a) (e_pop a) 1 a), th)
-  | EPopLeft => (set_alg g (al_evo (tl (e_pending a)) (e_init a) (e_pop a) (e_gen a) a), th_dna (hd dna0 (e_pending a)) th)
-  | EInitGenFeedback => (set_alg g (al_misc (e_lockgen a) (ig_np a) (S (ig_nf a)) (e_setups a) a), th)
-  | EPopAppend => (set_alg g (al_evo (e_pending a) (e_init a) (e_pop a ++ [r_dna th]) (e_gen a) a), th)
-  | EPopUpdate => (set_alg g (al_evo (e_pending a) (e_init a) (lastn (c_pop c) (e_pop a)) (e_gen a) a), th)
+      [MAlg (al_evo (e_pending a ++ kids) (e_init a) (e_pop a) (S (e_gen a)) a)]
+  | ESetGen1 => [MAlg (al_evo (e_pending a) (e_init a) (e_pop a) 1 a)]
+  | EPopLeft => [MAlg (al_evo (tl (e_pending a)) (e_init a) (e_pop a) (e_gen a) a)]
+  | EInitGenFeedback => [MAlg (al_misc (e_lockgen a) (ig_np a) (S (ig_nf a)) (e_setups a) a)]
+  | EPopAppend => [MAlg (al_evo (e_pending a) (e_init a) (e_pop a ++ [r_dna th]) (e_gen a) a)]
+  | EPopUpdate => [MAlg (al_evo (e_pending a) (e_init a) (lastn (c_pop c) (e_pop a)) (e_gen a) a)]
+  | _ => []
   end.
+
+(* ... and to the registers (and ghost debts) of the thread that runs it *)
+Definition regs (c : cfg) (me : nat) (e : effect) (g : gstate) (th : tstate) : tstate :=
+  let s := r_study th in
+  let st := study_of g s in
+  let a := alg g in
+  match e with
+  | ENewStudy => ghu (gh_reg true) (th_study (nstudies g) th)
+  | ERegister => ghu (gh_reg false) th
+  | ELookup => match registry g with Some s' => th_study s' th | None => th end
+  | EGetLatest => th_trial (alookup (s_latest st) (r_group th)) th
+  | EReadId => th_id (S (length (s_trials st))) th
+  | EAppend => ghu (gh_append (length (s_trials st))) (th_trial (Some (length (s_trials st))) th)
+  | EIncPend => ghu gh_incpend th
+  | EDecPend => ghu gh_dp th
+  | EIncComp => ghu gh_cc th
+  | EIncInf => ghu gh_infc th
+  | ESetLatest => ghu gh_setlat th
+  | ESetCur => th_cur (r_trial th) th
+  | ESetCompleted =>
+      match r_cur th, otrial st (r_cur th) with
+      | Some i, Some x => if t_done x then th else ghu (gh_flip i) th
+      | _, _ => th
+      end
+  | ESetInf => match r_cur th, otrial st (r_cur th) with Some i, Some x => if t_inf x then th else ghu gh_inf th | _, _ => th end
+  | ELoadDna => match otrial st (r_cur th) with Some x => th_dna (t_dna x) th | None => th end
+  | EComputeReward =>
+      th_reward (match otrial st (r_cur th) with Some x => if t_done x && negb (t_inf x) then t_final x else None | None => None end) th
+  | EReadBest => th_best (s_best st) th
+  | ESetBest => ghu gh_bestdone th
+  | ESetRet b => th_ret b th
+  | EPolicy => th_ret (match otrial st (r_cur th) with Some x => existsb (Nat.eqb (t_id x)) (c_stop c) | None => false end) th
+  | EIncNF => ghu gh_fed th
+  | ERandPropose => th_dna dna0 th
+  | EInitGenPropose => th_dna dna0 th
+  | ESetPid => th_dna {| d_pid := S (a_np a); d_init := d_init (r_dna th) |} th
+  | ESetInitial b => th_dna {| d_pid := d_pid (r_dna th); d_init := b |} th
+  | EPopLeft => th_dna (hd dna0 (e_pending a)) th
+  | _ => th
+  end.
+
+Definition sem (c : cfg) (me : nat) (e : effect) (g : gstate) (th : tstate) : gstate * tstate :=
+  (fold_left (apply_mut (r_study th)) (muts c me e g th) g, regs c me e g th).
 
 (* the declared footprint of conditions and effects: what [evalc]/[sem] read and write, as variables of the source *)
 Definition cond_reads (cn : cond) : list var :=
   match cn with
-  | CConst _ | CFlag _ | CRetTrue | CRetFalse | CRewardSome | CSpecDiffers => []
+  | CConst _ | CFlag _ | CRetTrue | CRetFalse | CRewardSome => []
   | CRegMissing => [VRegistry]
   | CActiveNot => [VActive]
   | CTrialNoneOrDone | CTrialPending | CCurPending | CCurNotPending => [VTStatus]
@@ -366,7 +468,7 @@ Definition cond_reads (cn : cond) : list var :=
   | CNoMeas => [VTMeas]
   | CInfeasible => [VTInf]
   | CBestBetter => [VTFinal]
-  | CSpecNone => [VASpec]
+  | CSpecNone | CSpecDiffers => [VASpec]
   | CPendEmpty => [VEPending]
   | CPopInit => [VEInit]
   | CDnaInitial => [VDna]
@@ -441,7 +543,7 @@ Definition step_act (c : cfg) (t : nat) (a : act) (p i : nat) (g : gstate) (th :
   | Stmt _ _ e => let '(g', th') := sem c t e g th in Some (g', goto (S i) th')
   | Branch _ cn off =>
       let b := evalc c cn g th in
-      Some (note_full cn b g th, goto (if b then S i else S i + off) th)
+      Some (note_full cn b g th, goto (if b then S i else S i + off) (note_branch cn b th))
   | Jump off => Some (g, goto (S i + off) th)
   | Throw XStop => Some (g, th_pc None th)
   | Throw _ => Some (g, to_script th)
@@ -476,7 +578,7 @@ Definition run (ps : progs) (c : cfg) (init : gstate * list tstate) (sched : lis
 
 Definition thread0 (grp : nat) (gnone : bool) (s : list uop) : tstate :=
   {| pc := Some (P_init, 0); script := s; held := []; r_study := 0; r_group := grp; r_gnone := gnone; r_trial := None; r_cur := None;
-     r_id := 0; r_dna := dna0; r_ret := false; r_reward := None; r_arg := 0%Z; r_best := None |}.
+     r_id := 0; r_dna := dna0; r_ret := false; r_reward := None; r_arg := 0%Z; r_best := None; gh := ghost0 |}.
 
 Definition init_state (c : cfg) (workers : list (nat * bool * list uop)) : gstate * list tstate :=
   (g0 (c_max c), map (fun w => thread0 (fst (fst w)) (snd (fst w)) (snd w)) workers).
